@@ -496,6 +496,75 @@ def rule_pipe(ctx, rep):
         r.finding("parse_program|token source", "%s:%d" % (b2.f["file"], b2.f["line"]), "parse_library is not called on the token vector returned by tokenize_program")
 
 
+def rule_commenttext(ctx, rep, rid="R-C08-commenttext"):
+    """Comments never matter: what is written *inside* a comment must not reach any decision.  A function of the parser that tells comment
+    tokens from other tokens (it compares a token type with TokenType::Comment) may look at a token's text only to see which kind of
+    comment it is - `starts_with` a constant opener.  Every other use of Token.text there (another str method, handing the text to a
+    function) lets the content of a comment decide something."""
+    from vlib import units
+    TT = "ironplc_parser::token::TokenType"
+    r = rep.rule(rid, "a parser function that singles out comment tokens reads Token.text only through starts_with(<constant opener>): the content of a comment decides nothing",
+                 floor=1, floor_what="functions that compare a token type with Comment and read the token text")
+    OPENERS = {"//", "(*"}
+    n = 0
+    for b in sorted(ctx.prog.bodies.values(), key=lambda x: x.id):
+        if b.f["crate"] != "ironplc_parser" or "::test" in norm(b.id) or "::__parse_" in norm(b.id) or b.f.get("exp"):
+            continue
+        unit = [b] + [cb for cb in ctx.prog.bodies.values() if cb.f.get("parent") == b.id]
+        # does the unit compare with TokenType::Comment ?
+        cmp_comment = False
+        for bd in unit:
+            for i, where, o in bd.operands():
+                if o[0] == "c" and len(o) > 3 and isinstance(o[3], dict) and o[3].get("variant") == "Comment" and o[1] == TT:
+                    cmp_comment = True
+            for pl in bd.f.get("promoted", []):
+                for o in pl:
+                    if len(o) > 3 and isinstance(o[3], dict) and o[3].get("variant") == "Comment":
+                        cmp_comment = True
+        if not cmp_comment or b.f["dk"] == "Closure":
+            continue
+        fn = norm(b.id).replace("ironplc_parser::", "")
+        reads = 0
+        bad = []
+        for bd in unit:
+            # locals that hold (references to) the text of a token
+            seeds = set()
+            for i, j, st in bd.all_stmts():
+                if st[0] == "=" and st[2][0] in ("ref", "use") :
+                    pl = st[2][2] if st[2][0] == "ref" else op_place(st[2][1])
+                    if pl is None:
+                        continue
+                    rt = bd.root(pl)
+                    if any(isinstance(x, list) and x[0] == "f" and x[2] == "text" and (x[3] or "").endswith("token::Token") for x in rt[1]):
+                        seeds.add(st[1][0])
+            if not seeds:
+                continue
+            reads += 1
+            taint = units.forward(bd, seeds)
+            for c in bd.calls():
+                args = [op_place(a) for a in c.args]
+                if not any(p is not None and p[0] in taint for p in args):
+                    continue
+                nm = c.callee or c.u or ""
+                last = nm.split("::")[-1]
+                if last in ("deref", "as_str", "as_ref", "borrow", "clone", "eq", "ne"):
+                    continue
+                if last == "starts_with" and len(c.args) > 1 and bd.const_str(c.args[1]) in OPENERS:
+                    continue
+                bad.append((bd, c, nm))
+        if not reads:
+            continue
+        n += 1
+        if bad:
+            k = 0
+            for bd, c, nm in bad:
+                k += 1
+                r.finding("%s|text of a token -> %s#%d" % (fn, nm.split("::")[-1], k), loc_str(bd.f, c.loc),
+                          "a function that singles out comments examines the text of a token with %s: what is written inside a comment can change the result" % nm)
+        else:
+            r.ok(fn, "%s:%d" % (b.f["file"], b.f["line"]), "only the opener is looked at")
+
+
 def run(ctx, rep):
     rep.not_decided += ["equality of parsed libraries and verdicts under respelling (value-level)",
                         "correctness of the END_IF terminator insertion state machine (observation in DESIGN.md section 4)"]
@@ -507,6 +576,7 @@ def run(ctx, rep):
     rule_pipe(ctx, rep)
     rule_rawtext(ctx, rep)
     rule_prestep(ctx, rep)
+    rule_commenttext(ctx, rep)
     from rules import c08_trivia, c08_endif
     c08_trivia.run(ctx, rep)
     c08_trivia.run_glue(ctx, rep)
